@@ -219,6 +219,8 @@ func txnSQL(a Action) string {
 		return fmt.Sprintf("REPLACE INTO %s (id, v) USING (id) VALUES (%d, %d);", t, k, x)
 	case "replace3":
 		return fmt.Sprintf("REPLACE INTO %s (id, v) USING (id) VALUES (%d, %d), (%d, %d), (%d, %d);", t, k+2, x, k, x+1, k+1, x)
+	case "replacedup":
+		return fmt.Sprintf("REPLACE INTO %s (id, v) USING (id) VALUES (%d, %d), (%d, %d);", t, k, x, k, x+1)
 	case "selectsub":
 		return "SELECT * FROM (SELECT * FROM " + t + ") s;"
 	case "selectagg":
@@ -673,7 +675,7 @@ func txnRandom(r *core.Run, hk int, flavour string) (Action, []Action) {
 		case x < 60:
 			acts = append(acts, txnA("replace", t, key(), rng.Intn(10)))
 		case x < 63:
-			acts = append(acts, txnA("replace3", t, key(), rng.Intn(10)))
+			acts = append(acts, txnA([]string{"replace3", "replacedup"}[rng.Intn(2)], t, key(), rng.Intn(10)))
 		case x < 67:
 			acts = append(acts, txnA([]string{"addcol", "dropcol", "renamevu", "renameuv"}[rng.Intn(4)], t, 0, 0))
 		case x < 70:
